@@ -6,8 +6,10 @@ C10 driver.  Case lines:
   `uuid <nameHex>\t<uuidHex> <uuidHex>`        uuid.OfflinePlayerUUID(name) and profile.NewOffline(name).ID
   `name <nameHex>\t0|1`                        playerNameRegex.MatchString(name) (verif hook)
   `runes <hex>\t<r,r,…|_>`                     Go `for range` rune decoding (validates Utf8.lean; no verdict)
-  `login <proto> <none|legacy> <-|idHex:nameHex> <nameHex>\t<outcome>`
-        outcome: `closed` | `invalid-name` | `ok <uuidHex> <nameHex> be=<nameHex|->`
+  `login <proto> <none|legacy> <-|idHex:nameHex> <be:0|1> <nokey|valid|expired|badsig> <nameHex>\t<outcome>`
+        outcome: `closed` | `invalid-name` | `bad-key` | `ok <uuidHex> <nameHex> be=<nameHex|->`
+        (key = the signed profile key attached to the login start packet, protocols 759/760 only; `valid` is
+        signed by the harness-owned trust anchor installed through the verif hook)
         (`be` = Username of the ServerLogin the fake backend received; `-` when the case has no backend leg)
 Spec verdicts are evaluated on the implementation's output:
   uuid  : both ids equal vanilla's nameUUIDFromBytes("OfflinePlayer:"+name)
@@ -30,10 +32,15 @@ def parseOverride (s : String) : Option (Option Profile) :=
 def showOutcome (withBackend : Bool) : Outcome → String
   | .closed => "closed"
   | .invalidName => "invalid-name"
+  | .badKey => "bad-key"
   | .success id nm be => "ok " ++ toHex id ++ " " ++ toHex nm ++ " be=" ++ (if withBackend then toHex be else "-")
 
 /-- spec on the implementation's login outcome -/
-def loginVerdict (ov : Option Profile) (u : Bytes) (impl : String) : String :=
+def parseKey : String → Option KeyState
+  | "nokey" => some .absent | "valid" => some .valid | "expired" => some .expired | "badsig" => some .badSignature
+  | _ => none
+
+def loginVerdict (key : KeyState) (ov : Option Profile) (u : Bytes) (impl : String) : String :=
   let valid := decide (validUsername u)
   match impl.splitOn " " with
   | ["ok", idh, nmh, beh] =>
@@ -48,7 +55,7 @@ def loginVerdict (ov : Option Profile) (u : Bytes) (impl : String) : String :=
         | none => "viol:backend-uuid"
     | some _, some _, some _ => "ok"      -- plugin-chosen identity: admission judged, identity is correspondence only
     | _, _, _ => "viol:malformed-outcome"
-  | _ => if valid then "viol:valid-name-rejected" else "ok"
+  | _ => if valid && (key == .absent || key == .valid) then "viol:valid-name-rejected" else "ok"
 
 def step (c : Case) : String × String :=
   match c.op, c.args with
@@ -70,11 +77,11 @@ def step (c : Case) : String × String :=
     match parseHex h with
     | some bs => (showRunes (decodeRunes bs), "-")
     | none => ("bad-op", "-")
-  | "login", [_proto, mode, ovs, be, h] =>
-    match parseOverride ovs, parseHex h with
-    | some ov, some u =>
-      (showOutcome (be = "1") (offlineLogin (mode = "none") ov u), loginVerdict ov u c.impl)
-    | _, _ => ("bad-op", "-")
+  | "login", [_proto, mode, ovs, be, ks, h] =>
+    match parseOverride ovs, parseKey ks, parseHex h with
+    | some ov, some key, some u =>
+      (showOutcome (be = "1") (offlineLoginKeyed key (mode = "none") ov u), loginVerdict key ov u c.impl)
+    | _, _, _ => ("bad-op", "-")
   | _, _ => ("bad-op", "-")
 
 end Gate.C10
